@@ -7,14 +7,15 @@
   `fresh env spec known argv` is the answer of a freshly built, identically configured parser.
 
   * `FullStatement` — every parse call of every history returns the fresh answer — is kept visible and is
-    still REFUTED on the current code in four independent ways, each by a concrete witness history:
-    `d8_regression`, `d9_witness`, `d9_help_witness`, `d10_witness`, `d10_later_witness`, `d10_help_witness`,
-    `lateAdd_witness`  (⇒ `c08_full_false`).  The former D5 / D6 witness histories now satisfy the
-    statement (`d5_regression`, `d6_regression`).
+    still REFUTED on the current code in three independent ways, each by a concrete witness history:
+    `d9_witness`, `d9_help_witness`, `d10_witness`, `d10_later_witness`, `d10_help_witness`,
+    `lateAdd_witness`  (⇒ `c08_full_false`).  The former D5 / D6 / D8 witness histories now satisfy
+    the statement (`d5_regression`, `d6_regression`, `d8_regression`), as does `print_help` before the first
+    parse of a constructor-`config_path=` parser (`helpCtor_regression`).
   * `c08_partial` — for EVERY history (no bound on its length, no hypothesis on it): every parse call that is
     `safe` in the state it is made in, on a parser all of whose earlier calls since its construction were
     `safe`, returns exactly the fresh answer.  `safe` is a decidable predicate made of one named clause per
-    open finding (`d8Safe`, `d9Safe`, `d10Safe`, `lateSafe`) and two clauses that are PROOF GAPS, not known
+    open finding (`d9Safe`, `d10Safe`, `lateSafe`) and two clauses that are PROOF GAPS, not known
     defects (`cfgSetupSafe`: a `--config_path` parser whose set-up was not made by a completed parse call —
     the registered actions are then in another order than in a fresh parser and no permutation lemma is
     proved; `ctorFilesPristine`: parsers with constructor `config_path=` files are covered on their first call
@@ -46,9 +47,6 @@ def FullStatement : Prop := ∀ (env : Env) (ops : List Op), allAgree env init o
 
 /-! ### the named exclusions -/
 
-/-- D8: no `parse_tuple` closure of this parser has been advanced -/
-def d8Safe (p : PState) : Bool := decide (p.counters = some (p.table.map (fun _ => 0)))
-
 /-- D9: on an already set-up parser, this argv selects the subgroup alternatives that were frozen -/
 def d9Safe (env : Env) (p : PState) (argv : List Str) : Bool :=
   !p.preDone ||
@@ -79,7 +77,7 @@ def cfgSetupSafe (p : PState) : Bool := !p.spec.cfgPath || (p.preDone == p.cfgDe
 def safeParse (env : Env) (p : PState) (argv : List Str) : Bool :=
   !p.broken &&
   (if p.spec.cfgFiles.isEmpty then
-     d8Safe p && d9Safe env p argv && d10Safe env p argv && lateSafe p && cfgSetupSafe p
+     d9Safe env p argv && d10Safe env p argv && lateSafe p && cfgSetupSafe p
    else
      -- PROOF GAP: parsers with constructor `config_path=` files are covered on their first call only
      decide (p = newP p.spec))
@@ -99,8 +97,7 @@ def preTbl : Option Val → List Act
 /-- the state of a parser that is not set up: nothing but its definition, the pushed defaults and the
     registration of `--config_path` -/
 def basePre (p : PState) : PState :=
-  { spec := p.spec, table := preTbl p.cfgDefault, counters := some ((preTbl p.cfgDefault).map (fun _ => 0)),
-    fileDefs := p.fileDefs, cfgDefault := p.cfgDefault }
+  { spec := p.spec, table := preTbl p.cfgDefault, fileDefs := p.fileDefs, cfgDefault := p.cfgDefault }
 
 /-- per parser: once set up, its action table is the table of ITS OWN settings for the frozen wrappers -/
 def Core (p : PState) : Prop :=
@@ -309,12 +306,6 @@ theorem preprocess_base_stop (env : Env) (p : PState) (args : List Str) (q : PSt
     · injection h with h _; exact Or.inr h.symm
     · cases h
 
-theorem core_of_counters {p : PState} (cs : Option (List Nat)) (h : Core p) (hpre : p.preDone = true) :
-    Core { p with counters := cs } := by
-  rcases h with ⟨h1, _⟩ | ⟨h1, h2, h3⟩
-  · rw [hpre] at h1; cases h1
-  · exact Or.inr ⟨h1, h2, h3⟩
-
 /-- from a parser that is not set up, `_preprocessing` + parse + `_postprocessing` keep the invariant -/
 theorem finishP_base_inv (env : Env) (p : PState) (known : Bool) (rest : List Str)
     (hb : p = basePre p) (hpre : p.preDone = false)
@@ -330,7 +321,7 @@ theorem finishP_base_inv (env : Env) (p : PState) (known : Bool) (rest : List St
     have key := preprocess_base_ok env p rest q hb hpre heq
     split
     · exact Or.inr (Or.inl rfl)
-    · refine Or.inr (Or.inr ⟨core_of_counters _ key.2.2.1 key.2.1, fun hc => ?_⟩)
+    · refine Or.inr (Or.inr ⟨key.2.2.1, fun hc => ?_⟩)
       obtain ⟨h1, h2⟩ := hconj (by rw [← key.2.2.2.1]; exact hc)
       exact ⟨key.2.2.2.2.1.trans h1, key.2.2.2.2.2.trans h2⟩
 
@@ -433,21 +424,20 @@ theorem helpP_inv (env : Env) (p : PState) (h : InvP p) : InvP (helpP env p).1 :
   · left; rw [helpP_spec]; exact hf
 
 /-- what a parse does on a set-up parser without `--config_path` -/
-theorem parseP_done_plain (env : Env) (p : PState) (known : Bool) (argv : List Str) (cs : List Nat)
-    (hf : p.spec.cfgFiles = []) (hc : p.spec.cfgPath = false) (hb : p.broken = false) (hpre : p.preDone = true)
-    (hcs : p.counters = some cs) :
-    parseP env p known argv =
-      ({ p with counters := (finishOut env p.table cs p.frozen p.late p.fileDefs known argv).2 },
-       (finishOut env p.table cs p.frozen p.late p.fileDefs known argv).1) := by
+theorem parseP_done_plain (env : Env) (p : PState) (known : Bool) (argv : List Str)
+    (hf : p.spec.cfgFiles = []) (hc : p.spec.cfgPath = false) (hb : p.broken = false) (hpre : p.preDone = true) :
+    (parseP env p known argv).2 = finishOut env p.table p.frozen p.late p.fileDefs known argv ∧
+      ((parseP env p known argv).1 = p ∨ (parseP env p known argv).1 = { p with broken := true }) := by
   unfold parseP
-  simp only [hb, Bool.false_eq_true, ↓reduceIte]
+  rw [if_neg (by rw [hb]; decide)]
   rw [cfgPhase_plain hf hc argv]
   dsimp only
   unfold finishP
   rw [preprocess_done hpre]
   dsimp only
-  rw [hcs]
-  simp [hb]
+  generalize finishOut env p.table p.frozen p.late p.fileDefs known argv = o
+  cases o
+  all_goals first | exact ⟨rfl, Or.inl rfl⟩ | exact ⟨rfl, Or.inr rfl⟩
 
 /-- the prologue on a set-up `--config_path` parser whose argv names no file: only the shown default changes -/
 theorem cfgPhase_reuse (env : Env) (p : PState) (argv : List Str) (sc : Scan) (d : Val)
@@ -462,8 +452,7 @@ theorem cfgPhase_new_reg (env : Env) (spec : Spec) (argv : List Str) (sc : Scan)
     (hf : spec.cfgFiles = []) (hc : spec.cfgPath = true)
     (hs : cfgScan env true argv = .ok sc) (hn : sc.names = []) :
     cfgPhase env (newP spec) argv =
-      .go { newP spec with cfgDefault := some sc.v, table := [helpAct, cfgAct sc.v], counters := some [0, 0] }
-        sc.rest := by
+      .go { newP spec with cfgDefault := some sc.v, table := [helpAct, cfgAct sc.v] } sc.rest := by
   unfold cfgPhase
   simp [newP, hf, hc, hs, hn, loadFiles]
 
@@ -489,31 +478,31 @@ theorem parseP_scan_err (env : Env) (p : PState) (known : Bool) (argv : List Str
   all_goals first | exact ⟨rfl, Or.inl rfl⟩ | exact ⟨rfl, Or.inr rfl⟩
 
 /-- what a parse does on a set-up `--config_path` parser whose argv names no file -/
-theorem parseP_done_cfg (env : Env) (p : PState) (known : Bool) (argv : List Str) (cs : List Nat) (sc : Scan) (d : Val)
+theorem parseP_done_cfg (env : Env) (p : PState) (known : Bool) (argv : List Str) (sc : Scan) (d : Val)
     (hf : p.spec.cfgFiles = []) (hc : p.spec.cfgPath = true) (hb : p.broken = false) (hpre : p.preDone = true)
-    (hd : p.cfgDefault = some d) (hs : cfgScan env true argv = .ok sc) (hn : sc.names = [])
-    (hcs : p.counters = some cs) :
-    parseP env p known argv =
-      ({ p with cfgDefault := some sc.v, table := setCfgDefault sc.v p.table,
-                counters := (finishOut env (setCfgDefault sc.v p.table) cs p.frozen p.late p.fileDefs known sc.rest).2 },
-       (finishOut env (setCfgDefault sc.v p.table) cs p.frozen p.late p.fileDefs known sc.rest).1) := by
+    (hd : p.cfgDefault = some d) (hs : cfgScan env true argv = .ok sc) (hn : sc.names = []) :
+    (parseP env p known argv).2 =
+        finishOut env (setCfgDefault sc.v p.table) p.frozen p.late p.fileDefs known sc.rest ∧
+      ((parseP env p known argv).1 = { p with cfgDefault := some sc.v, table := setCfgDefault sc.v p.table } ∨
+       (parseP env p known argv).1 =
+          { p with cfgDefault := some sc.v, table := setCfgDefault sc.v p.table, broken := true }) := by
   unfold parseP
-  simp only [hb, Bool.false_eq_true, ↓reduceIte]
+  rw [if_neg (by rw [hb]; decide)]
   rw [cfgPhase_reuse env p argv sc d hf hc hd hs hn]
   dsimp only
   unfold finishP
   rw [preprocess_done (p := { p with cfgDefault := some sc.v, table := setCfgDefault sc.v p.table }) hpre]
   dsimp only
-  rw [hcs]
-  simp [hb]
+  generalize finishOut env (setCfgDefault sc.v p.table) p.frozen p.late p.fileDefs known sc.rest = o
+  cases o
+  all_goals first | exact ⟨rfl, Or.inl rfl⟩ | exact ⟨rfl, Or.inr rfl⟩
 
 /-- the fresh answer, computed: scan, resolve the subgroups, build the table of the parser's own settings, run -/
 theorem fresh_plain (env : Env) (spec : Spec) (known : Bool) (argv : List Str) (fregs : List FReg) (tbl : List Act)
     (hf : spec.cfgFiles = []) (hc : spec.cfgPath = false)
     (hch : chooseAll env spec.cfg spec.regs argv = .ok fregs)
     (htbl : tableFor spec.cfg [] [helpAct] fregs = some tbl) :
-    fresh env spec known argv = (finishOut env tbl (tbl.map (fun _ => 0)) fregs [] [] known argv).1 := by
-  obtain ⟨acts, hacts⟩ := tableFor_append htbl
+    fresh env spec known argv = finishOut env tbl fregs [] [] known argv := by
   unfold fresh parseP
   have hb' : (newP spec).broken = false := rfl
   simp only [hb', Bool.false_eq_true, ↓reduceIte]
@@ -521,39 +510,34 @@ theorem fresh_plain (env : Env) (spec : Spec) (known : Bool) (argv : List Str) (
   dsimp only
   unfold finishP
   have : preprocess env (newP spec) argv =
-      .ok { newP spec with preDone := true, table := tbl, frozen := fregs,
-                           counters := some (tbl.map (fun _ => 0)) } := by
+      .ok { newP spec with preDone := true, table := tbl, frozen := fregs } := by
     unfold preprocess
-    simp only [newP, Bool.false_eq_true, ↓reduceIte, hch, htbl, Option.map_some]
-    rw [hacts]
-    simp
+    simp only [newP, Bool.false_eq_true, ↓reduceIte, hch, htbl]
   rw [this]
-  rfl
+  dsimp only [newP]
+  generalize finishOut env tbl fregs [] [] known argv = o
+  cases o <;> rfl
 
 theorem fresh_cfg (env : Env) (spec : Spec) (known : Bool) (argv : List Str) (sc : Scan) (fregs : List FReg)
     (tbl : List Act) (hf : spec.cfgFiles = []) (hc : spec.cfgPath = true)
     (hs : cfgScan env true argv = .ok sc) (hn : sc.names = [])
     (hch : chooseAll env spec.cfg spec.regs sc.rest = .ok fregs)
     (htbl : tableFor spec.cfg [] [helpAct, cfgAct sc.v] fregs = some tbl) :
-    fresh env spec known argv = (finishOut env tbl (tbl.map (fun _ => 0)) fregs [] [] known sc.rest).1 := by
-  obtain ⟨acts, hacts⟩ := tableFor_append htbl
+    fresh env spec known argv = finishOut env tbl fregs [] [] known sc.rest := by
   unfold fresh parseP
   have hb' : (newP spec).broken = false := rfl
   simp only [hb', Bool.false_eq_true, ↓reduceIte]
   rw [cfgPhase_new_reg env spec argv sc hf hc hs hn]
   dsimp only
   unfold finishP
-  have : preprocess env { newP spec with cfgDefault := some sc.v, table := [helpAct, cfgAct sc.v],
-                                          counters := some [0, 0] } sc.rest =
-      .ok { newP spec with cfgDefault := some sc.v, preDone := true, table := tbl, frozen := fregs,
-                           counters := some (tbl.map (fun _ => 0)) } := by
+  have : preprocess env { newP spec with cfgDefault := some sc.v, table := [helpAct, cfgAct sc.v] } sc.rest =
+      .ok { newP spec with cfgDefault := some sc.v, preDone := true, table := tbl, frozen := fregs } := by
     unfold preprocess
-    simp only [newP, Bool.false_eq_true, ↓reduceIte, hch, htbl, Option.map_some]
-    rw [hacts]
-    simp
+    simp only [newP, Bool.false_eq_true, ↓reduceIte, hch, htbl]
   rw [this]
-  rfl
-
+  dsimp only [newP]
+  generalize finishOut env tbl fregs [] [] known sc.rest = o
+  cases o <;> rfl
 
 /-- what the safety clauses say about a parser (without constructor files) that is not set up: it is pristine -/
 theorem pristine_of_safe {env : Env} {p : PState} {argv : List Str}
@@ -588,7 +572,7 @@ theorem parseP_agrees (env : Env) (p : PState) (known : Bool) (argv : List Str)
     rw [← hs]
   · have hf : p.spec.cfgFiles = [] := List.isEmpty_iff.mp hfe
     simp only [hfe, ↓reduceIte, Bool.and_eq_true] at hs
-    obtain ⟨⟨⟨⟨h8, h9⟩, h10⟩, hl⟩, hset⟩ := hs
+    obtain ⟨⟨⟨h9, h10⟩, hl⟩, hset⟩ := hs
     rcases h with h | h | ⟨h, hconj⟩
     · exact absurd hf h
     · rw [hb] at h; cases h
@@ -596,8 +580,7 @@ theorem parseP_agrees (env : Env) (p : PState) (known : Bool) (argv : List Str)
       · have hp := pristine_of_safe h1 h2 hconj h10 hset
         unfold fresh
         rw [← hp]
-      · have hcs : p.counters = some (p.table.map (fun _ => 0)) := by simpa [d8Safe] using h8
-        have hlate : p.late = [] := by simpa [lateSafe] using hl
+      · have hlate : p.late = [] := by simpa [lateSafe] using hl
         have hdefs : p.fileDefs = [] := by
           simp only [d10Safe, Bool.and_eq_true, decide_eq_true_eq] at h10
           exact h10.1
@@ -613,7 +596,7 @@ theorem parseP_agrees (env : Env) (p : PState) (known : Bool) (argv : List Str)
               have : fregs = p.frozen := by simpa using h9
               rw [this]
             · cases h9
-          rw [parseP_done_plain env p known argv _ hf hc hb h1 hcs,
+          rw [(parseP_done_plain env p known argv hf hc hb h1).1,
               fresh_plain env p.spec known argv p.frozen p.table hf hc hch h2, hlate, hdefs]
         · -- --config_path parser, set up by an earlier parse
           have hsome : p.cfgDefault.isSome = true := by
@@ -638,10 +621,9 @@ theorem parseP_agrees (env : Env) (p : PState) (known : Bool) (argv : List Str)
               · cases h9
             rw [hdefs, hd] at h2
             obtain ⟨acts, htab, htbl⟩ := tableFor_cfgDefault d sc.v h2
-            rw [parseP_done_cfg env p known argv _ sc d hf hc hb h1 hd hsc hn hcs,
+            rw [(parseP_done_cfg env p known argv sc d hf hc hb h1 hd hsc hn).1,
                 fresh_cfg env p.spec known argv sc p.frozen _ hf hc hsc hn hch htbl, hlate, hdefs, htab,
                 setCfgDefault_pre]
-            simp
 
 theorem parseP_inv (env : Env) (p : PState) (known : Bool) (argv : List Str)
     (hs : safeParse env p argv = true) (h : InvP p) : InvP (parseP env p known argv).1 := by
@@ -655,7 +637,7 @@ theorem parseP_inv (env : Env) (p : PState) (known : Bool) (argv : List Str)
     cases hfe
   · have hf : p.spec.cfgFiles = [] := List.isEmpty_iff.mp hfe
     simp only [hfe, ↓reduceIte, Bool.and_eq_true] at hs
-    obtain ⟨⟨⟨⟨h8, _⟩, h10⟩, _⟩, hset⟩ := hs
+    obtain ⟨⟨⟨_, h10⟩, _⟩, hset⟩ := hs
     rcases h with h | h | ⟨h, hconj⟩
     · exact absurd hf h
     · rw [hb] at h; cases h
@@ -663,10 +645,10 @@ theorem parseP_inv (env : Env) (p : PState) (known : Bool) (argv : List Str)
       · have hp := pristine_of_safe h1 h2 hconj h10 hset
         rw [hp]
         exact parseP_new_inv env p.spec hf known argv
-      · have hcs : p.counters = some (p.table.map (fun _ => 0)) := by simpa [d8Safe] using h8
-        cases hc : p.spec.cfgPath
-        · rw [parseP_done_plain env p known argv _ hf hc hb h1 hcs]
-          exact Or.inr (Or.inr ⟨core_of_counters _ (Or.inr ⟨h1, h2, h3⟩) h1, hconj⟩)
+      · cases hc : p.spec.cfgPath
+        · rcases (parseP_done_plain env p known argv hf hc hb h1).2 with e | e
+          · rw [e]; exact Or.inr (Or.inr ⟨Or.inr ⟨h1, h2, h3⟩, hconj⟩)
+          · rw [e]; exact Or.inr (Or.inl rfl)
         · have hsome : p.cfgDefault.isSome = true := by
             simpa [cfgSetupSafe, hc, h1] using hset
           obtain ⟨d, hd⟩ := Option.isSome_iff_exists.mp hsome
@@ -681,12 +663,14 @@ theorem parseP_inv (env : Env) (p : PState) (known : Bool) (argv : List Str)
               exact List.isEmpty_iff.mp h10.2
             rw [hd] at h2
             obtain ⟨acts, htab, htbl⟩ := tableFor_cfgDefault d sc.v h2
-            rw [parseP_done_cfg env p known argv _ sc d hf hc hb h1 hd hsc hn hcs]
-            refine Or.inr (Or.inr ⟨Or.inr ⟨h1, ?_, h3⟩, fun hc' => ?_⟩)
-            · show tableFor p.spec.cfg p.fileDefs (preTbl (some sc.v)) p.frozen = some (setCfgDefault sc.v p.table)
-              rw [htab, setCfgDefault_pre]
-              exact htbl
-            · exact absurd (show p.spec.cfgPath = false from hc') (by rw [hc]; decide)
+            rcases (parseP_done_cfg env p known argv sc d hf hc hb h1 hd hsc hn).2 with e | e
+            · rw [e]
+              refine Or.inr (Or.inr ⟨Or.inr ⟨h1, ?_, h3⟩, fun hc' => ?_⟩)
+              · show tableFor p.spec.cfg p.fileDefs (preTbl (some sc.v)) p.frozen = some (setCfgDefault sc.v p.table)
+                rw [htab, setCfgDefault_pre]
+                exact htbl
+              · exact absurd (show p.spec.cfgPath = false from hc') (by rw [hc]; decide)
+            · rw [e]; exact Or.inr (Or.inl rfl)
 
 
 /-! ### lifting to the pool and to all histories -/
@@ -880,9 +864,6 @@ def mkP (i : Nat) (c : Cfg) (cls : ClassSpec) (dest : String) (cp := false) (fs 
 
 def argvOf (l : List String) : List Str := l.map String.toList
 
-/-- D8: heterogeneous tuple parsed twice on the same parser -/
-def d8Hist : List Op :=
-  mkP 0 cU clsT "t" ++ [.parse 0 false (argvOf ["--tup", "4", "b", "2.5"]), .parse 0 false (argvOf ["--tup", "4", "b", "2.5"])]
 /-- D9: `--mod y` first, `--mod x` afterwards still yields the `y` alternative -/
 def d9Hist : List Op :=
   mkP 0 cU clsS "s" ++ [.parse 0 false (argvOf ["--mod", "y"]), .parse 0 false (argvOf ["--mod", "x"])]
@@ -901,8 +882,6 @@ def d10HelpHist : List Op :=
 def lateAddHist : List Op :=
   mkP 0 cU clsA "a" ++ [.parse 0 false [], .add 0 { dest := "b".toList, cls := clsB }, .parse 0 false (argvOf ["--lr", "2"])]
 
-/-- D8 repaired by b1a5942: the second parse of a heterogeneous tuple agrees with a fresh parser (regression) -/
-theorem d8_regression : allAgree env0 init d8Hist = true := by decide
 theorem d9_witness : allAgree env0 init d9Hist = false := by decide
 theorem d9_help_witness : allAgree env0 init d9HelpHist = false := by decide
 theorem d10_witness : allAgree env0 init d10Hist = false := by decide
@@ -930,7 +909,6 @@ theorem c08_full_false : ¬ FullStatement := by
   cases this
 
 /-- each witness history contains a call that `safe` excludes — the exclusions are where the failures are -/
-example : safeHist env0 init d8Hist = false := by decide
 example : safeHist env0 init d9Hist = false := by decide
 example : safeHist env0 init d9HelpHist = false := by decide
 example : safeHist env0 init d10Hist = false := by decide
@@ -938,7 +916,18 @@ example : safeHist env0 init d10LaterHist = false := by decide
 example : safeHist env0 init d10HelpHist = false := by decide
 example : safeHist env0 init lateAddHist = false := by decide
 
-/-! ### regression examples: the repaired D5 / D6 histories now satisfy the statement, and are `safe` -/
+/-! ### regression examples: the repaired D5 / D6 / D8 histories now satisfy the statement, and are `safe` -/
+
+/-- D8 (repaired by b1a5942): a heterogeneous tuple parsed twice on the same parser, after a rejected value, and
+    with the option given twice on one command line -/
+def d8Hist : List Op :=
+  mkP 0 cU clsT "t" ++ [.parse 0 false (argvOf ["--tup", "4", "b", "2.5"]), .parse 0 false (argvOf ["--tup", "x", "b", "2.5"]),
+    .parse 0 false (argvOf ["--tup", "4", "b", "2.5", "--tup", "5", "c", "2.5"]), .parse 0 false (argvOf ["--tup", "4", "b", "2.5"])]
+theorem d8_regression : allAgree env0 init d8Hist = true ∧ safeHist env0 init d8Hist = true := by decide
+example : (runHist env0 init d8Hist).getLast? =
+    some (.ok [{ dest := "t".toList, cls := "T".toList,
+                 fields := [("tup".toList, .tuple [.int 4, .str "b".toList, .float "2.5".toList])], sub := none }] [] none []) := by
+  decide
 
 /-- D5 (repaired by 7b430cf): `p0 = ArgumentParser(DASH)`, `p1 = ArgumentParser(UNDERSCORE)`, then
     `p0.parse_args(["--a-b","3"])` is accepted: p0 spells its options its own way -/
@@ -976,7 +965,8 @@ def demoHist : List Op :=
   mkP 1 cU clsS "s" ++ [.parse 1 false (argvOf ["--mod", "z"]), .parse 1 false (argvOf ["--mod", "y", "--yv", "5"]),
     .parse 0 false (argvOf ["--a-b", "4"]), .printHelp 0, .parse 1 true (argvOf ["--mod", "y", "--zzz"]),
     .parse 0 false (argvOf ["--a_b", "4"]), .parse 0 false (argvOf ["-h"]), .formatHelp 1] ++
-  mkP 2 cU clsT "t" ++ [.parse 2 false (argvOf ["--tup", "4", "b", "2.5"]), .parse 0 false []] ++
+  mkP 2 cU clsT "t" ++ [.parse 2 false (argvOf ["--tup", "4", "b", "2.5"]), .parse 2 false (argvOf ["--tup", "x", "b", "2.5"]),
+    .parse 2 false (argvOf ["--tup", "5", "c", "2.5"]), .parse 0 false []] ++
   mkP 1 cU clsA "a" (cp := true) ++ [.parse 1 false (argvOf ["--a_b", "2"]), .parse 1 false [],
     .parse 1 false (argvOf ["--a_b=9"])] ++
   mkP 2 cU clsK "k" ++ [.parse 2 false (argvOf ["--tag", "12"])] ++
@@ -990,9 +980,9 @@ example : (runHist env0 init demoHist).getLast? =
     some (.ok [{ dest := "a".toList, cls := "A".toList, fields := [("a_b".toList, .sc (.int 9))], sub := none }] [] none []) := by
   decide
 
-/-- the monitored form also speaks about histories that DO contain unsafe calls: here parser 0 is abused (D8) and
+/-- the monitored form also speaks about histories that DO contain unsafe calls: here parser 0 is abused (D9) and
     the theorem still covers every call on parser 1 -/
-example : Monitored env0 init (fun _ => false) (d8Hist ++ mkP 1 cD clsA "a" ++ [.parse 1 false (argvOf ["--a-b", "3"])]) :=
+example : Monitored env0 init (fun _ => false) (d9Hist ++ mkP 1 cD clsA "a" ++ [.parse 1 false (argvOf ["--a-b", "3"])]) :=
   c08_partial_init env0 _
 
 
